@@ -37,5 +37,6 @@ def main (args : List String) : IO UInt32 := do
   | ["C18", mode] => loopState stdin stdout (Driver.C18.step (mode == "oracle")) default; return 0
   | ["C17", mode] => loopState stdin stdout (Driver.C17.step (mode == "oracle")) default; return 0
   | ["C09", mode] => loopState stdin stdout (Driver.Net.step (mode == "oracle")) default; return 0
+  | ["C13", mode] => loopState stdin stdout (Driver.Net.step (mode == "oracle")) default; return 0
   | ["C11", mode] => loopState stdin stdout (Driver.Net.step (mode == "oracle")) default; return 0
   | _ => IO.eprintln "usage: driver <property> model|oracle"; return 2
